@@ -824,7 +824,7 @@ func servingProtocol(c *core.Ctx) []string {
 		}
 	}
 	sends := 0
-	for _, an := range ad.AnonFuncs {
+	for _, an := range closuresOf(ad) {
 		core.EachInstr(an, func(_ *ssa.BasicBlock, _ int, in ssa.Instruction) {
 			sel, ok := in.(*ssa.Select)
 			if !ok {
@@ -882,15 +882,41 @@ func servingProtocol(c *core.Ctx) []string {
 		}
 		var par *ssa.Parameter
 		okPar := true
+		isWorker := s.Fn.Parent() == exCtx
+		for _, w := range core.AliasedClosures(exCtx) {
+			if w == s.Fn {
+				isWorker = true
+			}
+		}
 		for _, o := range core.Origins(conn, core.OriginOpts{}) {
 			pp, isPar := o.(*ssa.Parameter)
+			// a worker that is a named function receives the connection as an argument of its `go` statement
+			if isPar && pp.Parent() == s.Fn && s.Fn.Parent() == nil && isWorker {
+				k := -1
+				for i, q := range s.Fn.Params {
+					if q == pp {
+						k = i
+					}
+				}
+				var bound ssa.Value
+				core.EachInstr(exCtx, func(_ *ssa.BasicBlock, _ int, in ssa.Instruction) {
+					if g, isGo := in.(*ssa.Go); isGo && core.StaticCallee(g) == s.Fn {
+						if a := core.CallArgs(g); k >= 0 && k < len(a) {
+							bound = a[k]
+						}
+					}
+				})
+				if bp, ok := core.Strip(bound).(*ssa.Parameter); bound != nil && ok {
+					pp = bp
+				}
+			}
 			if !isPar || pp.Parent() != exCtx || (par != nil && par != pp) {
 				okPar = false
 				break
 			}
 			par = pp
 		}
-		if !okPar || par == nil || (s.Fn.Parent() != exCtx && s.Fn != exCtx) {
+		if !okPar || par == nil || (!isWorker && s.Fn != exCtx) {
 			fail("releaseConn at %s: connection %s is neither fresh nor exchangeConnCtx's parameter", where, core.Expr(conn))
 			continue
 		}
